@@ -27,8 +27,11 @@ def utf16_field(text, n):
     return b + bytes(n - len(b))
 
 
-def rdac_response(step, r, wellformed=True):
-    """a response a repeater would send at `step` (prefix + body long enough for every stepN handler)"""
+def rdac_response(step, r, wellformed=True, template=None):
+    """a response a repeater would send at `step` (prefix + body long enough for every stepN handler).  With a template, all peers of the
+    run answer with the SAME body (same model, cloned configuration: same reported DMR id, callsign, frequencies)"""
+    if template is not None:
+        r = __import__("random").Random(template * 31 + step)
     body = bytearray(r.getrandbits(8) for _ in range(r.choice([236, 256, 300])))
     if wellformed:
         # identity fields read by step6 must be valid UTF-16 (offsets relative to whole datagram)
@@ -158,6 +161,7 @@ class C18(Check):
                     rates[x] = f.random() * 0.3
         n = k.choice([1, 2, 3, 5, 8, 13, 21, 34, 55, 89, 150])
         follow = k.choice([0.5, 0.8, 0.95])  # how faithfully peers follow the real handshake
+        template = k.getrandbits(16) if k.random() < 0.5 else None  # all peers answer from one template (cloned repeaters)
         p_rdac = k.choice([0.3, 0.5, 0.8])
         step = {}
         reg = set()
@@ -178,8 +182,13 @@ class C18(Check):
                 if rates and f.random() < rates.get("peer_reset", 0):
                     data = bytes([f.choice([0, 0, 1, 255])])
                     fl.append("peer_reset")
+                elif st in EXP and w.random() < 0.06:
+                    # near miss: the expected answer with its version / block octet altered (a continuation fragment 7E 04 01 .., another version)
+                    nm = bytearray(rdac_response(st, w, template=template))
+                    nm[w.choice([1, 2])] ^= w.choice([0x01, 0x07, 0x80])
+                    data = bytes(nm)
                 elif st in EXP and w.random() < follow:
-                    data = rdac_response(st, w, wellformed=w.random() < 0.9)
+                    data = rdac_response(st, w, wellformed=w.random() < 0.9, template=template)
                 elif st == 0 or w.random() < 0.3:
                     data = bytes([w.choice([0, 0, 7])]) if w.random() < 0.5 else b"hello" + bytes(w.randrange(0, 8))
                 elif w.random() < 0.6:
